@@ -20,7 +20,7 @@ def exec_DR(t):
     cfg, s, n, f, cx = t[0], t[1] == 's', int(t[2]), int(t[3]), t[4] == '1'
     try:
         v0 = 0j if cx else None
-        h = (n + f) % 4 if n <= 200 else 0
+        h = ((n + f) % 6 if n <= 52 else (n + f) % 4) if n <= 200 else 0
         def mk():
             # the format is reached directly or through a history that ends in it (the dtype string must follow the format)
             if h == 0:
@@ -29,6 +29,15 @@ def exec_DR(t):
                 x = Fxp(v0, not s, n, f, dtype_notation=cfg); x.resize(signed=s); return x
             if h == 2:
                 x = Fxp(v0, not s, n + 3, f - 1, dtype_notation=cfg); _ = x.dtype; x.resize(s, n, f); return x
+            if h >= 4:
+                # an object that held the other kind of value first (a complex one, then a real one stored by call / set_val, or the
+                # reverse): the string follows what the object is now
+                x = Fxp(0.0 if cx else 0j, s, n, f, dtype_notation=cfg); _ = x.dtype
+                if h == 4:
+                    x(0j if cx else 0.0)
+                else:
+                    x.set_val(0j if cx else 0.0)
+                return x
             ref = Fxp(v0, not s, n, f, dtype_notation=cfg); _ = ref.dtype
             return Fxp(v0, like=ref, signed=s)
         a = mk().dtype
@@ -49,6 +58,10 @@ def exec_DP(t):
             y.resize(dtype=st)
         elif route == 'resize_val':
             y = Fxp(0.5, True, 7, 3)
+            y.resize(dtype=st)
+        elif route in ('resize_int', 'resize_intval'):
+            # an object holding integers (n_frac = 0: its value type is int) takes the format of the string
+            y = Fxp(None if route == 'resize_int' else 3, False, 4, 0)
             y.resize(dtype=st)
         elif route in ('ctor_like', 'ctor_like_val'):
             # the format string together with a template of another (real) format and other modes: the string decides the format
@@ -103,9 +116,9 @@ def generate(tier, rng):
                     sp = spellings(rng, s, n, f, cx)
                     picks = sp if n <= 8 or tier == 'thorough' else [sp[0], rng.choice(sp)]
                     for st in picks:
-                        routes = ['ctor', 'resize', 'resize_val', 'ctor_like', 'ctor_like_val'] + (['fxpsum'] if st == sp[0] and f <= 60 else [])   # fxp_sum: the canonical x.dtype spelling
+                        routes = ['ctor', 'resize', 'resize_val', 'resize_int', 'resize_intval', 'ctor_like', 'ctor_like_val'] + (['fxpsum'] if st == sp[0] and f <= 60 else [])   # fxp_sum: the canonical x.dtype spelling
                         for route in (routes if (n <= 6 or tier == 'thorough') else [rng.choice(routes)]):
-                            if route in ('resize_val', 'ctor_like_val') and (n > 52 or f > 60 or cx):
+                            if route in ('resize_val', 'resize_intval', 'ctor_like_val') and (n > 52 or f > 60 or cx):
                                 continue        # (a real value stored under a -complex string stays a real object: the value decides, not demanded here)
                             yield 'DP %s %s' % (route, st)
     # malformed stream
